@@ -155,6 +155,10 @@ MNext == /\ l <= N
 
 MSpec == MInit /\ [][MNext]_mvars
 
+\* `fan reset` discards both stored entries of the fan (what "until the user discards it" relies on)
+C15_ResetDiscards ==
+  [][l <= N /\ Trace[l].ev = "CliReset" => db'[Trace[l].fan] = [data |-> FALSE, map |-> FALSE]]_mvars
+
 Report == l = N + 1 => PrintT(<<"TRACE-DONE", N, "DRIFT", <<>>>>)
 TraceAccepted == TLCGet("stats").diameter = N
 
